@@ -22,11 +22,12 @@ Local Open Scope string_scope.
 
 (* What part A's main loop assumes, and the progress argument of its `while`: every extractor that
    returns reports a consumed count inside the list.  No hypothesis on the line-level functions, on
-   the version, or on where the call is made.  (An unclosed legacy `<<py` block reports one line more
-   than there are; extract_join_choice_block may report 0: the main loop adds 1 itself.) *)
+   the version, or on where the call is made.  (Since fix F17o an unclosed legacy `<<py` block is a diagnostic
+   like an unclosed `@py:` block -- before it, it reported one line more than there are and this bound was
+   S (length lines - start); extract_join_choice_block may report 0: the main loop adds 1 itself.) *)
 Theorem extractor_contract : forall fixed cap lf lines start,
   (forall c n, extract_python_block lines start = POk (c, n) ->
-               1 <= n /\ n <= S (length lines - start)) /\
+               1 <= n /\ n <= length lines - start) /\
   (forall c n, extract_py_new_syntax lines start = POk (c, n) ->
                1 <= n /\ n <= length lines - start) /\
   (forall t n, extract_conditional_block_v fixed cap lf lines start = POk (t, n) ->
@@ -151,9 +152,13 @@ Example sample_fixed_header :
   = PDiag (DSyntax "if-missing-close" 0).
 Proof. vm_compute. reflexivity. Qed.
 
-(* an unclosed legacy <<py block reports len - start + 1 lines: the upper bound of the contract is met *)
-Example sample_py_unclosed : extract_python_block ["<<py"; "  a = 1"] 0 = POk ("a = 1", 3).
-Proof. vm_compute. reflexivity. Qed.
+(* an unclosed legacy <<py block is rejected like an unclosed @py: block (fix F17o; before it the block ran to
+   the end of the lines and reported len - start + 1 of them: POk ("a = 1", 3)) *)
+Example sample_py_unclosed :
+  extract_python_block ["<<py"; "  a = 1"] 0 = PDiag (DSyntax "py-unclosed" 0) /\
+  extract_python_block ["@py:"; "  a = 1"] 0 = PDiag (DSyntax "py-unclosed" 0) /\
+  extract_python_block ["<<py"; "  a = 1"; ">>"] 0 = POk ("a = 1", 3).
+Proof. vm_compute. repeat split; reflexivity. Qed.
 
 (* glue before a directive inside a branch: honoured since b0767bb, ignored before *)
 Example sample_glue_before_directive :
